@@ -12,8 +12,9 @@ from harness.impl import fordrun as F
 IMPORTS = "From Ford Require Import Base.Str Sem.UseAssoc Corr.C06."
 THEOREMS = ["C06_partial", "C06_refuted_rename", "C06_refuted_rename_across_statements",
             "C06_refuted_private_reexport", "C06_refuted_only_empty", "C06_refuted_only_dup",
-            "C06_order_independent", "C06_private_never_imported", "C06_spec_private_never_accessible",
-            "C06_toposort_is_topo", "C06_fuel_enough"]
+            "C06_statement_refuted", "C06_order_independent", "C06_toposort_is_topo",
+            "C06_private_never_imported", "C06_spec_private_never_accessible", "C06_fuel_enough",
+            "C06_example_hypotheses"]
 REGION_KEYS = {1: "rename-without-only", 2: "private-import-reexported", 4: "only-empty-imports-all",
                8: "only-duplicate-remote"}
 
@@ -117,10 +118,20 @@ class Runner:
         self.chk = chk
         self.cases = []          # (label, units, groups)
         self.nruns = 0
+        self.nhtml = 0
+        self.nhtml_refs = 0
 
-    def add(self, label, units, orders, nontrivial=True):
+    def add(self, label, units, orders, nontrivial=True, html=False):
         files, where = G.render_files(units)
         groups = {}
+        extra_refs = []
+        if html:
+            extra_refs = I.html_refs(units, files)
+            self.nhtml += 1
+            if isinstance(extra_refs, str):
+                self.chk.violation("failing-input", {"what": "full run: " + extra_refs, "files": files}, True)
+                extra_refs = []
+            self.nhtml_refs += len(extra_refs)
         for order in orders:
             obs, log, problems = I.observe(units, files, where, list(order))
             self.nruns += 1
@@ -136,6 +147,8 @@ class Runner:
                                                          "problems": problems[:10], "files": files,
                                                          "file_order": list(order)}, True)
                     continue
+                # references read from the generated HTML go through the same judge
+                obs["refs"] = obs["refs"] + [r for r in extra_refs if r not in obs["refs"]]
                 key = json.dumps(obs, sort_keys=True)
             groups.setdefault(key, (obs, []))[1].append(([n.lower() for n in order], log or []))
         glist = list(groups.values())
@@ -161,7 +174,8 @@ class Runner:
             return stats
         chk.traces += self.nruns
         # region census of all cases
-        for j, code in res.items():
+        # failing inputs outside every region first (at most three replays are kept)
+        for j, code in sorted(res.items(), key=lambda jc: (not (jc[1] & 2 and jc[1] >> 2 == 0), jc[0])):
             label, units, groups, files = self.cases[idx[j]]
             region = code >> 2
             for bit in REGION_KEYS:
@@ -170,7 +184,8 @@ class Runner:
             payload = {"label": label, "units": units, "files": files, "code": code,
                        "meaning": "bit0 model!=impl, bit1 impl tables/references differ from the Spec, "
                                   "bits>=2 region mask (1 rename,2 private,4 only-empty,8 only-dup)",
-                       "observed": groups[0][0], "runs": [g[1][:3] for g in groups]}
+                       "observed": groups[0][0], "runs": [g[1][:3] for g in groups],
+                       "file_orders": [m[0] for g in groups for m in g[1][:3]]}
             if code & 2:
                 chk.disagreements += 1
                 if region == 0:
@@ -215,16 +230,20 @@ def run(chk):
         units = json.load(open(f))["units"]
         R.add("corpus:" + f.name, units, file_orders(rng, units, 2))
     # 2. bounded-exhaustive layer over USE forms x default x access statements
-    for label, units in exhaustive_layer():
-        R.add(label, units, file_orders(rng, units, 1 if quick else 3))
+    exh = exhaustive_layer()
+    html_pick = set(rng.sample(range(len(exh)), 5 if quick else 40))
+    for k, (label, units) in enumerate(exh):
+        R.add(label, units, file_orders(rng, units, 1 if quick else 3), html=k in html_pick)
     # 3. random DAGs (mostly legal, region-free), two file orders each
-    n_random = 110 if quick else 3000
+    n_random = 260 if quick else 4000
     for k in range(n_random):
         knobs = {"regions": rng.random() < 0.25, "p_clash": 0.08 if rng.random() < 0.3 else 0.0}
         units = G.gen_graph(rng, knobs)
-        R.add(f"random:{k}", units, file_orders(rng, units, 2 if quick else 4))
+        R.add(f"random:{k}", units, file_orders(rng, units, 2 if quick else 4),
+              html=any(u["unit"] == "program" and any(d.get("ref") for d in u["decls"]) for u in units)
+              and rng.random() < (0.08 if quick else 0.05))
     # 4. every permutation of the file order
-    plan = [(5, 1), (4, 3), (3, 6)] if quick else [(5, 8), (4, 20), (3, 20)]
+    plan = [(5, 2), (4, 6), (3, 8)] if quick else [(5, 12), (4, 30), (3, 30)]
     for nfiles, count in plan:
         for k in range(count):
             units = G.gen_graph(rng, {"nmod": nfiles - 1, "program": True, "shape": rng.choice(["chain", "diamond", "random"]),
@@ -235,7 +254,8 @@ def run(chk):
         R.add("malformed:" + label, units, file_orders(rng, units, 2), nontrivial=False)
     t1 = time.time()
     stats = R.judge()
-    chk.extra["c06"] = {"ford_runs": R.nruns, "cases": len(R.cases), "impl_s": round(t1 - t0, 1),
+    chk.extra["c06"] = {"ford_runs": R.nruns, "cases": len(R.cases), "full_runs_html": R.nhtml,
+                        "html_references_checked": R.nhtml_refs, "impl_s": round(t1 - t0, 1),
                         "judge_s": round(time.time() - t1, 1), **stats}
     # 6. recorded findings: replay each witness on the implementation
     replay_findings(chk)
